@@ -1,6 +1,6 @@
 (* request handlers of the pre-write model driver (C08)
 
-   trace <store_locked 0|1> <detach_prewrite 0|1> <flusher_swap 0|1> <flag_in_writeaof 0|1> <detach_store_locked 0|1> <nprogs> <prog>... <sched>
+   trace <store_locked 0|1> <detach_prewrite 0|1> <flusher_swap 0|1> <flag_in_writeaof 0|1> <detach_store_locked 0|1> <flusher_store 0|1> <nprogs> <prog>... <sched>
      (in a batch a trailing "~", before the optional "!", says its commands are written by Lua scripts)
      prog  = F                      background flusher
            | C<batch>/<batch>/...   connection; batch = comma separated command ids, "_" = no write
@@ -39,9 +39,9 @@ let show (n : int) (st : state) : string =
 
 let handle (toks : string list) : string =
   match toks with
-  | "trace" :: sl :: dp :: fs :: fw :: dl :: n :: rest ->
+  | "trace" :: sl :: dp :: fs :: fw :: dl :: fst :: n :: rest ->
       let n = int_of_string n in
-      let v = { v_store_locked = (sl = "1"); v_detach_prewrite = (dp = "1"); v_flusher_swap = (fs = "1"); v_flag_in_writeaof = (fw = "1"); v_detach_store_locked = (dl = "1") } in
+      let v = { v_store_locked = (sl = "1"); v_detach_prewrite = (dp = "1"); v_flusher_swap = (fs = "1"); v_flag_in_writeaof = (fw = "1"); v_detach_store_locked = (dl = "1"); v_flusher_store = (fst = "1") } in
       let progs = List.filteri (fun i _ -> i < n) rest in
       let sched = match List.filteri (fun i _ -> i >= n) rest with
         | [s] when s <> "-" -> List.map (fun x -> nat_of_int (int_of_string x)) (split ',' s)
